@@ -2,6 +2,7 @@ package main
 
 import (
 	"fmt"
+	"go/types"
 	"strings"
 
 	"golang.org/x/tools/go/ssa"
@@ -387,47 +388,67 @@ func c03RecoveredValues(c *Ctx, r string) {
 		c.undecided(r, fnName(f), "the reload loop (Tx.readFrom ... precommitBuffer.put) was not found")
 		return
 	}
-	var looksAtVLogSizes func(g *ssa.Function, depth int) bool
-	looksAtVLogSizes = func(g *ssa.Function, depth int) bool {
+	// the value logs are the []appendable.Appendable parameter of OpenWith, whatever it is called
+	var vlogs ssa.Value
+	for _, p := range f.Params {
+		if sl, ok := p.Type().Underlying().(*types.Slice); ok && strings.HasSuffix(sl.Elem().String(), "appendable.Appendable") {
+			vlogs = p
+		}
+	}
+	if vlogs == nil {
+		c.undecided(r, fnName(f)+":vlogs", "OpenWith has no []appendable.Appendable parameter any more")
+		return
+	}
+	isSizeOf := func(in ssa.Instruction, src ssa.Value) bool {
+		cc := callOf(in)
+		return cc != nil && cc.IsInvoke() && cc.Method.Name() == "Size" && dependsOn(cc.Value, func(v ssa.Value) bool { return v == src })
+	}
+	var looksAtSizes func(g *ssa.Function, param ssa.Value, depth int) bool
+	looksAtSizes = func(g *ssa.Function, param ssa.Value, depth int) bool {
 		if g == nil || len(g.Blocks) == 0 || depth > 2 {
 			return false
 		}
 		found := false
 		allInstrs(g, false, func(in ssa.Instruction) {
+			if found {
+				return
+			}
+			if isSizeOf(in, param) {
+				found = true
+				return
+			}
 			cc := callOf(in)
-			if cc == nil || found {
+			if cc == nil {
 				return
 			}
-			if cc.IsInvoke() && cc.Method.Name() == "Size" && strings.Contains(strings.ToLower(desc(cc.Value)), "vlogs") {
-				found = true
-				return
-			}
-			if sc := cc.StaticCallee(); sc != nil && fnInPkgs(sc, []string{"embedded/store"}) && looksAtVLogSizes(sc, depth+1) {
-				found = true
+			if sc := cc.StaticCallee(); sc != nil && fnInPkgs(sc, []string{"embedded/store"}) {
+				for ai, a := range cc.Args {
+					if ai < len(sc.Params) && dependsOn(a, func(v ssa.Value) bool { return v == param }) && looksAtSizes(sc, sc.Params[ai], depth+1) {
+						found = true
+					}
+				}
 			}
 		})
 		return found
 	}
 	via := func(in ssa.Instruction) bool {
+		if isSizeOf(in, vlogs) {
+			return true
+		}
 		cc := callOf(in)
 		if cc == nil {
 			return false
 		}
-		if cc.IsInvoke() && cc.Method.Name() == "Size" && strings.Contains(strings.ToLower(desc(cc.Value)), "vlogs") {
-			return true
-		}
 		sc := cc.StaticCallee()
-		if sc == nil || !fnInPkgs(sc, []string{"embedded/store"}) || callTo("embedded/store.(*Tx).readFrom")(in) {
+		if sc == nil || !fnInPkgs(sc, []string{"embedded/store"}) {
 			return false
 		}
-		// the vLogs are handed to the helper
-		passes := false
-		for _, a := range cc.Args {
-			if strings.Contains(strings.ToLower(desc(a)), "vlogs") {
-				passes = true
+		for ai, a := range cc.Args {
+			if ai < len(sc.Params) && dependsOn(a, func(v ssa.Value) bool { return v == vlogs }) && looksAtSizes(sc, sc.Params[ai], 0) {
+				return true
 			}
 		}
-		return passes && looksAtVLogSizes(sc, 0)
+		return false
 	}
 	q := &pathQ{fn: f, from: from, to: put, via: via}
 	if w := q.bypass(); w != nil {
